@@ -14,9 +14,11 @@ def run(P, rep, tier):
         '(check-after-read) the number of bytes obtained is compared with the number requested before the content is used; '
         'R3 exactly one read per content section and no other stream operation between header and yield (content may look '
         'like anything: no delimiter scanning); R4 the read-ahead helper signals EOF only on an empty read, a non-EOF result '
-        'ends with the delimiter, and an unterminated last header ends the iteration (rules of C17 instantiated here).')
+        'ends with the delimiter, and an unterminated last header ends the iteration (rules of C17 instantiated here); R6 every yielded content section passed the trailing-newline check '
+        '(the only detector of a cut inside a section\'s last line); R7 the line splitting between read() and that check is lossless '
+        '(rules of C16 instantiated here).')
     rep.undecided = ('prefix property of the record sequence for every cut position as such; decided are the necessary conditions '
-                     'above. A split_lines defect that fabricates a final newline would not be seen (C16 is not applicable).')
+                     'above.')
     rep.trusted_base += ['stream.read(n) returns at most n bytes', 'sink/guard facts of sa/models.py']
     # ---- R5 first (cheap): an unterminated last line never becomes a record ---------------
     from sa.roles import ReaderRoles
@@ -105,6 +107,31 @@ def run(P, rep, tier):
         rep.violation(r2, 'no-short-read-check', cf.loc(),
                       '%s never compares len(<bytes read>) with the requested length: a file cut inside a section whose remaining '
                       'bytes happen to end with a newline yields that section with shortened content' % cf.short, path=[cf.short])
+
+    # ---- R6: the trailing-newline check is the only detector of a cut inside the last line --------
+    r6 = rep.rule('C07-R6', 'every yielded content section passed the check that its bytes end with the section newline', reference=6)
+    for X in rr.CONTENT_IDS:
+        if res[X]['newline_checked'] == [True]:
+            rep.ok(r6, X)
+        else:
+            rep.violation(r6, 'newline-check:%s' % X, cf.loc(), 'section %s can be yielded on a path without the check that its content ends '
+                          'with the declared/detected newline: a file cut in the middle of the last line of that section (or a length '
+                          'ending there) yields shortened content instead of a parse error' % X, path=[R.entry.short, cf.short])
+    # ---- R7: the lines rebuilt between read and that check are exactly the bytes read ------------------
+    r7 = rep.rule('C07-R7', 'the line splitting applied between read() and the newline check neither fabricates nor drops bytes '
+                  '(the rules of C16 hold for split_lines)', reference=1)
+    from sa.report import Report
+    from sa.props import c16
+    sub = Report('C16', tier, P)
+    c16.run(P, sub, tier)
+    if sub.violations:
+        v0 = sub.violations[0]
+        rep.violation(r7, 'split-lossy:%s' % v0['key'][:60], v0['loc'],
+                      'split_lines is not lossless (%d C16 rule instance(s) fail, first: %s): content rebuilt from its lines can pass '
+                      'the trailing-newline check although the bytes read do not end with a newline' % (len(sub.violations), v0['msg'][:200]),
+                      path=[cf.short, 'split_lines'])
+    else:
+        rep.ok(r7, 'split_lines', {'c16_obligations': sum(r_['instances'] for r_ in sub.rules.values())})
 
     # ---- R4: EOF / unterminated header (rules of C17 under this property) ----------------
     c17._run(P, rep, tier, 'C07-R4')
